@@ -79,25 +79,52 @@ def run(rep, pdb, tier):
     rep.add("zero-divisor/all-zero", "division by an all-zero polynomial returns Err before anything else", len(allzero) == 1, allzero[0].node if allzero else fn["body"], "")
     # ---- no spin
     wl = [n for n in walk(fn["body"]) if n.get("k") in ("While", "For", "Loop")]
-    ok = len(wl) == 1 and wl[0].get("k") == "While"
-    rep.add("no-spin/single-loop", "polydiv has exactly one loop (a while)", ok, wl[0] if wl else fn["body"], "loops=%d" % len(wl))
+    bounded_for = False
+    if len(wl) == 1 and wl[0].get("k") == "For":
+        r_ = for_range(ctx, wl[0])
+        bounded_for = r_ is not None and r_[1][0] == "num" and (r_[2][0] == "num" or (r_[2][0] == "def"))      # `for _ in 0..=MAX`
+    ok = len(wl) == 1 and (wl[0].get("k") == "While" or bounded_for)
+    rep.add("no-spin/single-loop", "polydiv has exactly one loop (a capped while, or a for over a constant range)", ok, wl[0] if wl else fn["body"], "loops=%d" % len(wl))
     rule_termination(rep, pdb, fn, "no-spin/termination", allow_while={"%s::polydiv" % PT: capped_while_ok, "%s::trim" % PT: while_counter_ok})
     if not ok:
         return {}
     w = wl[0]
     # ---- exit condition
-    c = ctx.term(w["cond"])
     rvar = None
     okx = False
-    if c[0] == "op" and c[1] == "&&":
-        a, b = c[2], c[3]
-        if a[0] == "not" and a[1][0] == "call" and str(a[1][1]).endswith("::is_zero"):
-            rvar = a[1][2]
-            degr = lin_add(LEN(F(rvar, "coeffs")), num(-1))
-            degv = lin_add(LEN(CO1), num(-1))
-            okx = b in (("op", ">=", degr, degv), ("op", "<=", degv, degr))
-    tail = fn["body"].get("expr")
-    tt = ctx.term(tail) if tail is not None else None
+    if w.get("k") == "While":
+        c = ctx.term(w["cond"])
+        if c[0] == "op" and c[1] == "&&":
+            a, b = c[2], c[3]
+            if a[0] == "not" and a[1][0] == "call" and str(a[1][1]).endswith("::is_zero"):
+                rvar = a[1][2]
+                degr = lin_add(LEN(F(rvar, "coeffs")), num(-1))
+                degv = lin_add(LEN(CO1), num(-1))
+                okx = b in (("op", ">=", degr, degv), ("op", "<=", degv, degr))
+        tail = fn["body"].get("expr")
+        tt = ctx.term(tail) if tail is not None else None
+    else:
+        # `for _ in 0..=MAX { if r.is_zero() || deg r < deg v { return Ok((q, r)); } .. }  Err(cap)`: the same exit test, at the
+        # top of the body; running out of the range is the cap
+        tt = None
+        for st_ in w["body"].get("stmts", []):
+            e_ = strip(st_.get("e") or {})
+            rets_ = [x for x in walk(e_)] if e_.get("k") == "If" else []
+            rets_ = [x for x in rets_ if x.get("k") == "Ret"]
+            if e_.get("k") == "If" and e_.get("else") is None and len(rets_) == 1:
+                t_ = ctx.term(rets_[0]["e"])
+                if t_[0] == "call" and str(t_[1]).endswith("::Ok") and t_[2][0] == "tup" and len(t_[2]) == 3:
+                    tt = t_
+                    rvar = t_[2][2]
+                    degr = lin_add(LEN(F(rvar, "coeffs")), num(-1))
+                    degv = lin_add(LEN(CO1), num(-1))
+                    at = cond_atoms(ctx, e_["cond"], True)
+                    want = {frozenset([("bool", ("call", "%s::is_zero" % PT, rvar), True)]), frozenset([norm_cmp("<", degr, degv)])}
+                    okx = len(at) == 1 and at[0][0] == "or" and {frozenset(alt) for alt in at[0][1]} == want
+                break
+        tail = fn["body"].get("expr")
+        tl_ = ctx.term(tail) if tail is not None else None
+        okx = okx and tl_ is not None and tl_[0] == "call" and str(tl_[1]).endswith("::Err")
     qvar = tt[2][1] if tt is not None and tt[0] == "call" and str(tt[1]).endswith("::Ok") and tt[2][0] == "tup" and len(tt[2]) == 3 else None
     okret = qvar is not None and tt[2][2] == rvar
     rep.add("exit", "the loop condition is `r != 0 && deg r >= deg v` and the result is Ok((q, r)) in that order", okx and okret, w, "cond ok=%s returns (q, r)=%s" % (okx, okret))
